@@ -35,8 +35,8 @@ ASSUMPTIONS = [
     'd[list] and d[k1, k2] with an absent key may raise KeyError; nothing else is asserted about them',
     'dictable takes part in -, &, [non-empty list of columns] and relabel only (dictable + x is row concatenation, dictable[k1, k2] zips rows, '
     'dictable[[]] is the empty ROW selection)',
-    'd + other: for Dict and its subclasses `other` is exactly a dict, dictattr or Dict (so d + d is generated for dictattr, its subclass and Dict, not for a Dict subclass) (tree_update recognises mappings by exact type and '
-    'raises "node item too short" for any other mapping class); for dictattr and its subclass `other` is any of the five classes',
+    'd + other: `other` is a dict, dictattr, Dict, a local subclass of dictattr or of Dict, or an OrderedDict, with flat values; d + d (the same object on both '
+    'sides) is generated for every class',
     'relabel: the RESULTING key list is duplicate-free (colliding renames have no defined result) - new labels may well be other existing keys (swaps, rotations, permutation lists, prefix chains are generated); the "full list of new keys" form is used only '
     'on mappings with >= 2 keys (a one-element list is indistinguishable from a single prefix/suffix/ignored string in the *args idiom)',
     'Dict.__call__: every parameter of a callable value names a key of the mapping after the non-callable keywords were applied, or another '
@@ -319,6 +319,8 @@ _FLAT = st.one_of(_FLAT_SCALAR, _FLAT_SCALAR,
                   st.lists(_FLAT_SCALAR, max_size=2).map(lambda v: ['tuple', v]))
 _MAP_CLASSES = ['dictattr', 'Dict', 'AttrSub', 'DictSub', 'dictable']
 _DICT_FAMILY = ('Dict', 'DictSub')
+# right operands of d + other: any mapping class (F21: Dict + <dict subclass other than dict/dictattr/Dict> used to raise)
+_OTHER_CLASSES = ['dict', 'dictattr', 'Dict', 'AttrSub', 'DictSub', 'OrderedDict']
 _CLS = {}
 
 _RELABEL_FN = {
@@ -337,7 +339,8 @@ def _classes():
 
         class DictSub(Dict):
             pass
-        _CLS.update(dict=dict, dictattr=dictattr, Dict=Dict, AttrSub=AttrSub, DictSub=DictSub, dictable=dictable)
+        from collections import OrderedDict
+        _CLS.update(dict=dict, dictattr=dictattr, Dict=Dict, AttrSub=AttrSub, DictSub=DictSub, dictable=dictable, OrderedDict=OrderedDict)
         for name in _MAP_CLASSES:
             for k in _KEYS + _ABSENT_EXTRA + _NEW + _B_NAMES + _D_NAMES + _LONG_KEYS + _FILLER:
                 if k in dir(_CLS[name]):
@@ -471,8 +474,6 @@ def _mapping_case(draw):
         op['keys'] = selection(lo=1 if opname in ('gett', 'getl') else 0)
     elif opname == 'add':
         how = draw(st.sampled_from(['keys', 'keys', 'keys', 'keys', 'self', 'same_keys_reordered']))
-        if how == 'self' and cls == 'DictSub':
-            how = 'keys'            # d + d with d of a Dict SUBCLASS is outside the domain (see ASSUMPTIONS: exact-type rule of tree_update)
         if how == 'self':
             op['other_self'] = True
             op['other'] = []
@@ -480,7 +481,7 @@ def _mapping_case(draw):
         else:
             okeys = keys[::-1] if how == 'same_keys_reordered' else selection(unique=True)
             op['other'] = [[k, draw(_FLAT)] for k in okeys]
-            op['other_cls'] = draw(st.sampled_from(['dict', 'dictattr', 'Dict'] if cls in _DICT_FAMILY else ['dict', 'dictattr', 'Dict', 'AttrSub', 'DictSub']))
+            op['other_cls'] = draw(st.sampled_from(_OTHER_CLASSES))
     elif opname == 'attr':
         op['probe'] = selection(lo=1, unique=True)
         op['set'] = [onekey(public=True), draw(_FLAT)]
@@ -520,7 +521,7 @@ def _mapping_long_case(draw):
         okeys = keys[a:draw(st.integers(a, nk))] + absent[:draw(st.integers(0, len(absent)))]
         okeys = draw(st.sampled_from([okeys, okeys[::-1], okeys[1::2] + okeys[::2]]))
         op['other'] = [[k, -1 - i] for i, k in enumerate(okeys)]
-        op['other_cls'] = draw(st.sampled_from(['dict', 'dictattr', 'Dict']))
+        op['other_cls'] = draw(st.sampled_from(_OTHER_CLASSES))
     elif opname in ('sub1', 'and1'):
         op['key'] = draw(st.sampled_from(keys)) if draw(st.integers(0, 3)) else draw(st.sampled_from(absent))
     else:
@@ -696,6 +697,8 @@ def run_mapping_ops(spec):
         check(_snapshot(other) == osnap and (other is d or type(other) is C[op['other_cls']]), '%s changed its right operand to %s', what, other)
         n_over = sum(1 for k in odata if k in data)
         cls.append('other=' + op['other_cls'])
+        if cname in _DICT_FAMILY and type(other) not in (dict, C['dictattr'], C['Dict']):
+            cls.append('Dict_plus_other_mapping_class')
         cls.append('add_overlap=' + ('none' if n_over == 0 else 'all' if n_over == len(odata) else 'some'))
         nt = len(keys) >= 1 and 0 < n_over < len(odata)
     elif name == 'relabel':
@@ -1159,7 +1162,7 @@ SUBS = [
                                   'relabel_new_label_is_an_existing_key': 0.05, 'relabel_permutes_existing_keys': 0.03, 'relabel_swap': 0.02, 'relabel_cycle>=3': 0.005,
                                   'relabel_new_label_is_an_existing_key/prefix_suffix': 0.015, 'relabel_new_label_is_an_existing_key/callable': 0.004,
                                   'relabel_new_label_is_an_existing_key/list': 0.006, 'relabel_rule_plus_keywords': 0.01, 'relabel_changes_nothing': 0.01,
-                                  'sel=all_keys_other_order': 0.015, 'sel=all_keys_same_order': 0.015, 'other_is_the_mapping_itself': 0.004,
+                                  'sel=all_keys_other_order': 0.015, 'sel=all_keys_same_order': 0.015, 'other_is_the_mapping_itself': 0.004, 'Dict_plus_other_mapping_class': 0.01, 'other=OrderedDict': 0.005,
                                   'other_has_same_keys_in_another_order': 0.01, 'falsy_value_selected': 0.05, 'dictable_zero_rows_with_columns': 0.01,
                                   'result_has_no_keys': 0.03}),
     Sub('mapping_long', lambda tier: _mapping_strategy(tier, long=True), run_mapping_ops, quick=1200, thorough=5000,
